@@ -1,6 +1,7 @@
 package props
 
 import (
+	"errors"
 	"fmt"
 	"sync/atomic"
 
@@ -174,11 +175,61 @@ func posClass(why string, n int) (rule, pos string) {
 }
 
 var hookFlavour atomic.Int64
+var allowedMode atomic.Int64
 
-// allowed runs the check; with hook, through the args-hook variant with a hook that hands the
+// AllowedHistory counts what allowed() did around the judged calls (reported in the evidence
+// through the counters of the calling property).
+var AllowedHistory [6]atomic.Int64
+
+// allowed runs the check whose verdict is judged. The verdict of a check is a function of the
+// invocation, the loader and the arguments - not of what was checked before - so the judged
+// call is preceded, in rotation, by calls that must not matter:
+//
+//	1: the same check against a loader that fails at its 1st / 2nd / 3rd lookup (a store that
+//	   is still filling up): denied, and forgotten;
+//	2: the same check once more (the judged verdict is the second one);
+//	3: a check through an argument hook that misbehaves - returns (nil, nil), an argument map
+//	   listing a key twice, an error, or panics (recovered here).
+//
+// With hook, the judged call goes through the args-hook variant with a hook that hands the
 // token's own arguments back - as a clone, or as a clone into which the same arguments (or a
 // second clone of them) were merged again, which changes nothing.
 func allowed(inv *invocation.Token, ld delegation.Loader, hook bool) error {
+	mode := allowedMode.Add(1) % 5
+	AllowedHistory[mode].Add(1)
+	switch mode {
+	case 1:
+		fail := &nthFailLoader{inner: ld, failAt: 1 + int(allowedMode.Load()/5)%3}
+		mon.Guard(func() { _ = judged(inv, fail, hook) })
+	case 2:
+		mon.Guard(func() { _ = judged(inv, ld, hook) })
+	case 3:
+		fl := allowedMode.Load() / 5 % 4
+		mon.Guard(func() {
+			_ = inv.ExecutionAllowedWithArgsHook(ld, func(a args.ReadOnly) (*args.Args, error) {
+				switch fl {
+				case 0:
+					return nil, nil
+				case 1:
+					c := a.WriteableClone()
+					if len(c.Keys) > 0 {
+						c.Keys = append(c.Keys, c.Keys[0])
+					} else {
+						_ = c.Add("k", 1)
+						c.Keys = append(c.Keys, "k")
+					}
+					return c, nil
+				case 2:
+					return nil, errors.New("hook: backend unavailable")
+				}
+				panic("hook: index out of range")
+			})
+		})
+	}
+	return judged(inv, ld, hook)
+}
+
+func judged(inv *invocation.Token, ld delegation.Loader, hook bool) error {
 	if hook {
 		fl := hookFlavour.Add(1) % 3
 		return inv.ExecutionAllowedWithArgsHook(ld, func(a args.ReadOnly) (*args.Args, error) {
@@ -193,6 +244,21 @@ func allowed(inv *invocation.Token, ld delegation.Loader, hook bool) error {
 		})
 	}
 	return inv.ExecutionAllowed(ld)
+}
+
+// nthFailLoader reports "not found" at its failAt-th lookup.
+type nthFailLoader struct {
+	inner  delegation.Loader
+	failAt int
+	n      int
+}
+
+func (l *nthFailLoader) GetDelegation(c cid.Cid) (*delegation.Token, error) {
+	l.n++
+	if l.n == l.failAt {
+		return nil, delegation.ErrDelegationNotFound
+	}
+	return l.inner.GetDelegation(c)
 }
 
 func runC01(w *mon.W) {
